@@ -399,6 +399,11 @@ func (p *Pool) Put(x any) {
 		s.Release(p)
 	}
 	p.items = append(p.items, x)
+	if !s.Ending() {
+		// another goroutine may take the object before the caller's next statement (a caller that keeps
+		// using what it has just put back shares it from here on)
+		s.Point(simrt.KSync, "Pool.Put.done")
+	}
 }
 
 // Map mirrors sync.Map (every operation is a scheduling point; Range iterates a snapshot in
